@@ -37,7 +37,7 @@ def main():
                                env=dict(os.environ, CARGO_TARGET_DIR=os.path.join(tmp, 'tgt')))
             lines = [l for l in r.stdout.splitlines() if l.startswith('test result') or 'FAILED' in l or l.startswith('error')]
             print('TESTS rc=%d' % r.returncode, ' | '.join(lines[:8]))
-        env = dict(os.environ, VERIF_REPO=dst)
+        env = dict(os.environ, VERIF_REPO=dst, VERIF_EVIDENCE_DIR=os.path.join(tmp, 'ev'))
         rc_all = 0
         for pid in props:
             r = subprocess.run([os.path.join(os.path.dirname(os.path.dirname(os.path.abspath(__file__))), 'check'), pid], env=env, stdout=subprocess.PIPE, stderr=subprocess.STDOUT, text=True)
